@@ -49,6 +49,11 @@ DECODE_SCRIPT = [
 
 
 def run(ctx):
+    _run_main6(ctx)
+    _round6(ctx)
+
+
+def _run_main6(ctx):
     _run_main(ctx)
     _shared_r4(ctx)
 
@@ -172,3 +177,10 @@ def _shared_r4(ctx):
     """Rules of other properties that are necessary conditions of this one too (found by seeding round 4)."""
     with ctx.rule('R19.5', "the heartbeat the URL spells out is the one negotiated with: plain minimum with the server's, 0 staying 0 (shared with C15)", floor=1) as r:
         A.include(ctx, r, 'c15', 'R15.1', pick=('heartbeat', 'ok-row'))
+
+
+def _round6(ctx):
+    """Rules that are necessary conditions of this property too (found by seeding round 6)."""
+    from rules import arms as A
+    with ctx.rule('R19.6', "the URL's connection_timeout is armed before the transport is touched: start / start_tls install it from the options (shared with C16)", floor=3) as r:
+        A.include(ctx, r, 'c16', 'R16.5', pick=('timeout-from-options', 'timeout-writers'))
